@@ -359,7 +359,10 @@ def many_fields(case, ctx):
 # --- histories: one plane object used, edited and derived between multiplications ---------------------------
 
 PLANE_EDITS = ["set_opd", "set_opd_scalar", "set_amp", "inplace_opd", "inplace_amp", "aug_opd", "copy", "deepcopy",
-               "rescale", "resample", "fit_tilt"]
+               "rescale", "resample", "fit_tilt",
+               # whole-array refills in place (a new phase screen copied into the plane's OPD array), resets to the
+               # neutral value, and updates made through the array the caller handed to the constructor
+               "fill_opd", "fill_opd", "zero_opd", "fill_amp", "caller_opd", "caller_amp"]
 
 
 @st.composite
@@ -408,9 +411,18 @@ def plane_history_case(draw, tier="quick"):
                           "y": draw(gen.finite(0.0, 1.0)), "seed": draw(st.integers(0, 2**31 - 1)),
                           "s": draw(st.sampled_from([2.0, 0.5, 1.5, 3.0]))})
     steps.append({"kind": "multiply", "wl": wl})
+    # neutral starting values held in arrays (an aperture built with opd=np.zeros(shape) / amplitude=np.ones(shape))
+    opd0 = draw(st.sampled_from(["drawn", "drawn", "zeros", "zeros", "const"]))
+    amp0 = draw(st.sampled_from(["drawn", "drawn", "ones"]))
+    if opd0 == "zeros":
+        opd = np.zeros(shape)
+    elif opd0 == "const":
+        opd = np.full(shape, 0.1 * wl)
+    if amp0 == "ones":
+        amp = mask.astype(float)
     return {"shape": list(shape), "wavelength": wl, "amp": amp, "opd": opd, "mask": mask, "labels": labels,
             "forms": forms, "cls": draw(st.sampled_from(["Plane", "Pupil"])), "ps": draw(gen.pos_log(1e-4, 1e-1)),
-            "steps": steps}
+            "steps": steps, "opd0": opd0, "amp0": amp0}
 
 
 def _expected_field(p, wl):
@@ -439,6 +451,8 @@ def plane_history(case, ctx):
         mask = np.stack([(lab == v).astype(int) for v in range(1, int(lab.max()) + 1)])
     kw = dict(amplitude=case["amp"].copy() if af == "array" else 0.75,
               opd=case["opd"].copy() if of == "array" else 0.1 * wl0, mask=mask, pixelscale=case["ps"])
+    # the arrays the caller handed over (the plane may hold them without copying)
+    caller = {"opd": kw["opd"] if of == "array" else None, "amp": kw["amplitude"] if af == "array" else None}
     with lentil_call("C07.history.build", f"{case['cls']}({case['forms']})"):
         p = lentil.Pupil(focal_length=2.0, **kw) if case["cls"] == "Pupil" else lentil.Plane(**kw)
     done, n_mul, edited_between = [], 0, False
@@ -469,6 +483,16 @@ def plane_history(case, ctx):
                     p.amplitude[r0:r0 + 2, c0:c0 + 4] *= 0.5
                 elif e == "aug_opd":
                     p.opd -= 0.07 * wl0
+                elif e == "fill_opd" and arr_opd and p.opd.flags.writeable:
+                    p.opd[...] = rng.uniform(-0.3, 0.3, size=shp) * wl0
+                elif e == "zero_opd" and arr_opd and p.opd.flags.writeable:
+                    p.opd[...] = 0
+                elif e == "fill_amp" and arr_amp and p.amplitude.flags.writeable:
+                    np.copyto(p.amplitude, np.where(np.asarray(p.amplitude) != 0, rng.uniform(0.2, 1.0, size=shp), 0))
+                elif e == "caller_opd" and caller["opd"] is not None and caller["opd"].shape == shp:
+                    caller["opd"][...] = rng.uniform(-0.3, 0.3, size=shp) * wl0
+                elif e == "caller_amp" and caller["amp"] is not None and caller["amp"].shape == shp:
+                    caller["amp"] *= 0.5 + 0.5 * rng.uniform(size=shp)
                 elif e == "copy":
                     p = p.copy()
                 elif e == "deepcopy":
@@ -505,7 +529,8 @@ def plane_history(case, ctx):
             raise Violation("C07.history.stale", f"step {i}: the product at wavelength {wl} is not amplitude*exp(2 pi i "
                                                  f"opd/lambda) inside the mask as the plane reports them now "
                                                  f"({case['cls']} {case['forms']}; history: {' '.join(done)})")
-    ctx.tag(case["cls"], "forms:" + case["forms"], f"multiplies:{min(n_mul, 5)}",
+    ctx.tag(case["cls"], "forms:" + case["forms"], f"multiplies:{min(n_mul, 5)}", "opd0:" + case.get("opd0", "drawn"),
+            "amp0:" + case.get("amp0", "drawn"),
             *sorted({"edit:" + d for d in done if not d.startswith("x@")}))
     ctx.nontrivial_if(edited_between and n_mul >= 2)
 
